@@ -114,6 +114,7 @@ func (u *Unit) libModel(st *State, v ssa.Value, key string, callee *ssa.Function
 		return true
 	case "strings.HasPrefix":
 		u.pureUF(st, v, "str_hasprefix", []Term{a(0), a(1)}, []Sort{SStr, SStr}, SBool)
+		u.prefixFacts()
 		return true
 	case "strings.HasSuffix":
 		u.pureUF(st, v, "str_hassuffix", []Term{a(0), a(1)}, []Sort{SStr, SStr}, SBool)
@@ -275,4 +276,23 @@ func hasStringMethod(t types.Type) bool {
 		}
 	}
 	return false
+}
+
+// prefixFacts states str_hasprefix on every pair of string constants seen so far.
+func (u *Unit) prefixFacts() {
+	u.s.declFun("str_hasprefix", []Sort{SStr, SStr}, SBool)
+	for a, ta := range u.ty.strs {
+		for b, tb := range u.ty.strs {
+			key := ta + "|" + tb
+			if u.prefixDone[key] {
+				continue
+			}
+			u.prefixDone[key] = true
+			if strings.HasPrefix(a, b) {
+				u.s.assumeGlobal(sx("str_hasprefix", ta, tb))
+			} else {
+				u.s.assumeGlobal(not(sx("str_hasprefix", ta, tb)))
+			}
+		}
+	}
 }
